@@ -137,7 +137,61 @@ def sub_layout(case):
             "accessor value")
 
 
-SUBS = {"ref": sub_ref, "affine": sub_affine, "encoding": sub_encoding, "layout": sub_layout}
+def sub_history(case):
+    """One integer DataArray object queried again and again while its nodata attribute and its cells are edited in place, with
+    other same-shaped cubes processed in between: every answer must describe the array as it is at that moment (per-pixel 1-d
+    value under the CURRENT nodata attribute), and every answer handed out earlier must still hold its values at the end."""
+    import warnings
+
+    ny, nx = case["shape"]
+    dims = tuple(case["dims"])
+    vals = np.array(case["pixels"], dtype="int16").reshape(ny, nx, -1).copy()
+    nt = vals.shape[2]
+    t = pd.date_range("2000-01-01", periods=nt, freq="D")
+    base = xr.DataArray(vals, dims=("y", "x", "time"), coords={"time": t}).transpose(*dims)
+    da = base.copy(deep=True)
+    if case.get("nodata0") is not None:
+        da.attrs["nodata"] = case["nodata0"]
+    held = []
+
+    def want_of(arr_yxt, nd):
+        return np.array([[np.float32(ac1d(np.ascontiguousarray(arr_yxt[i, j]), nd)) for j in range(nx)] for i in range(ny)])
+
+    for k, op in enumerate(case["ops"]):
+        kind = op[0]
+        if kind == "set_nodata":
+            da.attrs["nodata"] = op[1]
+        elif kind == "del_nodata":
+            da.attrs.pop("nodata", None)
+        elif kind == "set_cell":
+            i, j, q, v = op[1] % ny, op[2] % nx, op[3] % nt, op[4]
+            da.loc[{"y": da.y[i], "x": da.x[j], "time": da.time[q]}] = v
+        elif kind in ("query", "query_lazy", "other"):
+            with warnings.catch_warnings():
+                warnings.simplefilter("ignore")
+                if kind == "other":
+                    o = base.copy(deep=True)
+                    o.values[...] = np.roll(o.values, op[1] % 5 + 1, axis=o.get_axis_num("time")) // 2 + op[1]
+                    o.attrs["nodata"] = -9999
+                    res = call("autocorr() of another cube of the same shape", lambda: o.hdc.algo.autocorr())
+                    want = want_of(o.transpose("y", "x", "time").values, -9999)
+                elif kind == "query_lazy":
+                    lz = da.chunk({"y": 1, "x": 1, "time": -1})
+                    res = call("autocorr() on equal 1x1 dask blocks", lambda: lz.hdc.algo.autocorr().compute(scheduler="synchronous"))
+                    want = want_of(da.transpose("y", "x", "time").values, da.attrs.get("nodata"))
+                else:
+                    res = call("autocorr() after %d operations" % k, lambda: da.hdc.algo.autocorr())
+                    want = want_of(da.transpose("y", "x", "time").values, da.attrs.get("nodata"))
+            got = res.transpose("y", "x").values
+            req(np.array_equal(got, want), "autocorr() after the history %s (nodata attribute now %r): %s, per-pixel 1-d values of the current array %s" % (
+                [o_[0] for o_ in case["ops"][:k + 1]], da.attrs.get("nodata"), fmt(got.ravel(), 9), fmt(want.ravel(), 9)), "autocorr stale after in-place edit")
+            held.append((k, res, want))
+    for k, res, want in held:
+        req(np.array_equal(res.transpose("y", "x").values, want), "the autocorr() result obtained at step %d changed afterwards (history %s): now %s, was %s" % (
+            k, [o_[0] for o_ in case["ops"]], fmt(res.transpose("y", "x").values.ravel(), 9), fmt(want.ravel(), 9)), "autocorr result aliased")
+
+
+SUBS = {"history": sub_history, "ref": sub_ref, "affine": sub_affine, "encoding": sub_encoding, "layout": sub_layout}
 
 AC_GAPS = ["none", "isolated", "runs", "runs", "leading", "trailing", "lead_trail", "all_but_k", "alternating", "outage"]
 
@@ -231,3 +285,25 @@ def run(ctx):
         sub_layout(case)
 
     ctx.given("layout", lay(), ctx.n(150, 2000), fn=f_lay)
+
+    @st.composite
+    def hist(draw):
+        ny, nx = draw(st.sampled_from([(1, 1), (2, 2), (2, 2), (1, 3), (3, 2)]))
+        nt = draw(st.integers(4, 24))
+        markers = [-9999, 0, 255, 7]
+        cell = st.one_of(st.integers(-300, 300), st.sampled_from(markers))
+        px = [draw(st.lists(cell, min_size=nt, max_size=nt)) for _ in range(ny * nx)]
+        ops_ = draw(st.lists(st.one_of(st.tuples(st.just("query")), st.tuples(st.just("query")), st.tuples(st.just("query_lazy")),
+                                       st.tuples(st.just("set_nodata"), st.sampled_from(markers)), st.tuples(st.just("del_nodata")),
+                                       st.tuples(st.just("set_cell"), st.integers(0, 2), st.integers(0, 2), st.integers(0, 23), cell),
+                                       st.tuples(st.just("other"), st.integers(0, 9))), min_size=2, max_size=9))
+        return {"shape": [ny, nx], "pixels": px, "dims": list(draw(st.sampled_from([("y", "x", "time"), ("time", "y", "x")]))),
+                "nodata0": draw(st.sampled_from([None, -9999, 0])), "ops": [list(o) for o in ops_] + [["query"]]}
+
+    def f_hist(case):
+        kinds = [o[0] for o in case["ops"]]
+        rec.case("history", case, nontrivial=sum(k.startswith("query") for k in kinds) >= 2 and any(k in ("set_nodata", "del_nodata", "set_cell", "other") for k in kinds),
+                 cls=["ops=%d" % len(kinds)] + sorted(set(kinds)))
+        sub_history(case)
+
+    ctx.given("history", hist(), ctx.n(250, 3000), fn=f_hist)
